@@ -611,6 +611,8 @@ func main() {
 	}
 	// Unicode look-alikes and classes, single matches longer than 64 / 256 / 4096 runes (legs3.go)
 	unicodeLegs(r)
+	// ASCII control code points in every role (legs4.go)
+	controlLegs(r)
 	if r.Search {
 		if r.Failed() {
 			r.Note("search legs not run: the thorough generators already produced a failing input")
